@@ -3,7 +3,7 @@ import numpy as np
 from hypothesis import strategies as st
 
 from vlib import gen_tree, models
-from vlib.harness import Machine
+from vlib.harness import Machine, Sub
 
 PROPERTY = "C09"
 RULE = (
@@ -26,7 +26,7 @@ RULE = (
 ASSUMPTIONS = [
     "write-through is asserted for handles obtained from the tree (Tree.Node); writes through a Path / Branch node are "
     "not asserted either way (get_ndata of a path is a fancy-index copy)",
-    "id / pid are not written (that would change the topology, not an attribute)",
+    "ids are not written; a parent id is only re-assigned so that the table stays a tree (new parent outside the node's subtree), on tree nodes other than the root",
 ]
 
 COLS = ["id", "type", "x", "y", "z", "r", "pid", "tag", "w"]
@@ -324,6 +324,32 @@ def apply(s, name, args, ctx):
         s.flags["write"] = True
         if s.flags["have_detached"]:
             s.flags["detached_then_write"] = True
+    elif name == "reparent":
+        # the parent id is an attribute like any other: a tree node is hung below another node (not one of its own
+        # descendants, so the table stays a tree) through its handle, by attribute or by item assignment
+        sel, sel2, how = args
+        nodes = [v for v in s.views if v.kind == "node" and v.from_tree and s.owners[v.owner].kind == "tree"
+                 and int(s.owners[v.owner].cols["pid"][v.idx[0]]) != -1]
+        if not nodes:
+            return
+        v = nodes[sel % len(nodes)]
+        o = s.owners[v.owner]
+        i = v.idx[0]
+        parents = [int(q) for q in o.cols["pid"]]
+        below = models.descendants_or_self(parents, i)
+        cands = [j for j in range(len(parents)) if j not in below and j != parents[i]]
+        if not cands:
+            return
+        j = cands[sel2 % len(cands)]
+        if how % 2:
+            ctx.lib("node.pid = v", setattr, v.real, "pid", j)
+        else:
+            ctx.lib("node['pid'] = v", v.real.__setitem__, "pid", j)
+        o.cols["pid"][i] = j
+        s.flags["write"] = True
+        s.flags["reparented"] = True
+        if s.flags["have_detached"]:
+            s.flags["detached_then_write"] = True
     elif name == "write_owner":
         # edit a copy / detached object directly through its own storage
         sel, ci, raw = args
@@ -393,20 +419,79 @@ def finish(s, ctx):
     f = s.flags
     if s.t.get("strided_columns"):
         ctx.cls("tree-built-from-strided-columns")
-    for k in ("write", "detached_then_write", "attached_branch_segments", "negative", "slice", "mixed_collection", "write_after_kept_subnode"):
-        if f[k]:
+    for k in ("write", "detached_then_write", "attached_branch_segments", "negative", "slice", "mixed_collection", "write_after_kept_subnode", "reparented"):
+        if f.get(k):
             ctx.cls("history:" + k)
     n = len(s.t["parents"])
     ctx.cls("n>=6" if n >= 6 else "n<6")
     ctx.nontrivial(f["write"] and f["detached_then_write"] and f["attached_branch_segments"])
 
 
+# ----------------------------------------------------------------------------- copies of trees that carry more than columns
+@st.composite
+def btcopy_strategy(draw, tier):
+    t = draw(gen_tree.tree_case(min_n=2, max_n=16 if tier == "quick" else 50, regimes=["lattice"], soma_root=True, permute=None))
+    return {"tree": t, "sel": draw(st.integers(0, 10 ** 6)), "val": draw(st.integers(-200, 200)) / 8.0,
+            "what": draw(st.sampled_from(["drop-a-remembered-branch", "move-a-remembered-branch", "write-a-node", "forget-a-node's-branches"]))}
+
+
+def _bt_content(bt):
+    cols = {k: bt.get_ndata(k).copy() for k in bt.keys()}
+    brs = {int(k): [np.asarray(b.xyzr(), dtype=np.float64).copy() for b in v] for k, v in bt.branches.items()}
+    return cols, brs
+
+
+def _bt_equal(a, b):
+    if set(a[0]) != set(b[0]) or any(not np.array_equal(a[0][k], b[0][k]) for k in a[0]):
+        return False
+    if set(a[1]) != set(b[1]):
+        return False
+    return all(len(a[1][k]) == len(b[1][k]) and all(np.array_equal(x, y) for x, y in zip(a[1][k], b[1][k])) for k in a[1])
+
+
+def run_btcopy(case, ctx):
+    """A branch tree is a tree that also remembers the original branches: its copy() has equal content and is fully
+    independent - editing either side (a node attribute, the remembered branches, their points) never shows on the other."""
+    from swcgeom.core import BranchTree
+
+    tree = gen_tree.build_tree(case["tree"])
+    bt = ctx.lib("BranchTree.from_tree", BranchTree.from_tree, tree)
+    before = _bt_content(bt)
+    c = ctx.lib("branch_tree.copy", bt.copy)
+    ctx.check(type(c) is type(bt), "branch_tree/copy-has-the-same-type", f"{type(c).__name__}")
+    ctx.check(_bt_equal(_bt_content(c), before), "branch_tree/copy-has-equal-content", "")
+    keys = sorted(before[1])
+    ctx.cls("copy-edit:" + case["what"])
+    ctx.nontrivial(len(keys) >= 2)
+    # edit the copy (even selections) or the original (odd selections); the other side must keep its content
+    edited, kept = (c, bt) if case["sel"] % 2 == 0 else (bt, c)
+    kept_before = _bt_content(kept)
+    k = keys[(case["sel"] // 2) % len(keys)]
+    what = case["what"]
+    if what == "drop-a-remembered-branch":
+        edited.branches[k].pop()
+    elif what == "forget-a-node's-branches":
+        edited.branches.pop(k)
+    elif what == "move-a-remembered-branch":
+        br = edited.branches[k][0]
+        for col in ("x", "y", "z"):
+            br.attach.ndata[col][...] = br.attach.ndata[col] + np.float32(case["val"] + 1.0)
+    else:
+        nd = edited.node((case["sel"] // 2) % len(edited))
+        nd.x = float(case["val"]) + 777.0
+    ctx.check(_bt_equal(_bt_content(kept), kept_before), "branch_tree/copy-and-original-are-independent",
+              lambda: f"after '{what}' on the {'copy' if edited is c else 'original'}, the other side changed")
+    ctx.check(not _bt_equal(_bt_content(edited), kept_before), "branch_tree/edit-took-effect", "")
+
+
 SUBCHECKS = [
     Machine("views", init_strategy,
             {"node": I2, "slice": SL, "relatives": I2, "path": I2, "branch": I2, "tree_segments": I1, "branch_segments": I1,
-             "index_path": I2, "collection": I2, "read": I1, "write": WR, "write_owner": WR, "detach": I1, "copy": I1, "adjacency": I1},
+             "index_path": I2, "collection": I2, "read": I1, "write": WR, "reparent": WR, "write_owner": WR, "detach": I1, "copy": I1, "adjacency": I1},
             start, apply, invariant, finish, quick=1200, thorough=8000, steps_quick=40, steps_thorough=80, shards_quick=8,
             required={"history:write": 150, "history:detached_then_write": 100, "history:attached_branch_segments": 100,
                       "history:negative": 60, "history:slice": 60, "history:mixed_collection": 60,
-                      "history:write_after_kept_subnode": 60, "tree-built-from-strided-columns": 200}),
+                      "history:write_after_kept_subnode": 60, "tree-built-from-strided-columns": 200, "history:reparented": 150}),
+    Sub("branch_tree_copy", btcopy_strategy, run_btcopy, quick=400, thorough=3000, shards_quick=2,
+        required={"copy-edit:drop-a-remembered-branch": 40, "copy-edit:move-a-remembered-branch": 40, "copy-edit:write-a-node": 40}),
 ]
